@@ -20,6 +20,8 @@ def run_numeric(ctx, sim, sim_num_quick, sim_num_thorough, exhaustive=None, e_sa
         if more is None:
             scns, stats = None, st2
             break
+        for m_ in more:
+            m_["_id"] = str(m_.get("_id", "")) + ":mix"
         scns += more
         stats["states"] += st2.get("states", 0)
         stats["transitions"] += st2.get("transitions", 0)
